@@ -752,8 +752,18 @@ def distribution(shapes):
 def gen_token_shapes(seed, n):
     r = random.Random("c15-token-%s" % seed)
     out = []
+    cur = {"name": "S"}
     def rnd_ty(params, lts, depth=0):
-        c = r.choice(["prim", "prim", "gc", "param", "vec", "tuple", "ref", "array", "path2", "macro", "other", "assoc"] if depth < 2 else ["prim", "gc", "param"])
+        c = r.choice(["prim", "prim", "gc", "param", "vec", "tuple", "ref", "array", "path2", "macro", "other", "assoc", "selfref"] if depth < 2 else ["prim", "gc", "param", "selfref"])
+        if c == "selfref":
+            # a field type that mentions the derived type itself (recursive data: list cells, trees): by its own
+            # name or as `Self`, bare or behind a pointer
+            me = P(r.choice([cur["name"], cur["name"], "Self"]), list(lts) if r.random() < 0.7 else [], [])
+            w = r.choice(["bare", "gc", "gc", "box", "opt"])
+            if w == "bare": return me
+            if w == "gc": return P(r.choice(["Gc", "GcWeak"]), [r.choice(lts)] if lts else ["gc"], [me])
+            if w == "box": return P("Box", [], [me])
+            return P("Option", [], [P("Gc", [r.choice(lts)] if lts else ["gc"], [me])])
         if c == "prim": return P(r.choice(["u8", "i32", "String", "NotCollect", "bool"]))
         if c == "gc": return P(r.choice(["Gc", "GcWeak"]), [r.choice(lts)] if lts else ["gc"], [rnd_ty(params, lts, depth + 1)])
         if c == "param": return P(r.choice(params)) if params else P("u16")
@@ -772,6 +782,7 @@ def gen_token_shapes(seed, n):
                  item("bound", {"str": ""}), item("a::b")]
     for i in range(n):
         name = "S%d" % i
+        cur["name"] = name
         nl = r.choices([0, 1, 2, 3], [3, 5, 2, 1])[0]
         lts = r.sample(["gc", "a", "b", "arena"], nl)
         params = r.sample(["A", "B", "T"], r.choices([0, 1, 2], [4, 4, 2])[0])
